@@ -135,6 +135,10 @@ def _worker(item):
         }
 
 
+def _worker_chunk(items):
+    return [_worker(item) for item in items]
+
+
 def load_known_findings() -> list[dict]:
     path = os.path.join(env.VERIF, 'known_findings.json')
     try:
@@ -186,10 +190,20 @@ def run(check, tier: str, seed: int, replay: str | None = None) -> int:
             r = _worker(item)
             results[r['index']] = r
     else:
+        import concurrent.futures as futures
+        chunks = [order[k:k + chunksize] for k in range(0, len(order), chunksize)]
         ctx = multiprocessing.get_context('fork')
-        with ctx.Pool(workers) as pool:
-            for r in pool.imap_unordered(_worker, order, chunksize=chunksize):
-                results[r['index']] = r
+        with futures.ProcessPoolExecutor(workers, mp_context=ctx) as pool:
+            pending = {pool.submit(_worker_chunk, chunk): chunk for chunk in chunks}
+            try:
+                for future in futures.as_completed(pending):
+                    for r in future.result():
+                        results[r['index']] = r
+            except futures.process.BrokenProcessPool:
+                lost = [i for i, r in enumerate(results) if r is None]
+                print(f"HARNESS-ERROR property={property_id}: a worker process died; "
+                      f"{len(lost)} case(s) without result, first: {lost[:5]}")
+                return 2
 
     executed = sum(1 for r in results if r is not None)
     harness_errors = [r for r in results if r is not None and 'harness_error' in r]
